@@ -60,3 +60,30 @@ def matrix_from(dy, nys):
         for i in range(nys):
             A[i][j] = X.subst(dy[i], sub)
     return A
+
+
+def symplectic_form(names, P, l=None):
+    """Omega(r) of the bilinear concomitant  W(y, z) = y^T Omega z  of the viscoelastic-gravitational system in the layout `names`:
+    r^2 [ y1 z2 - y2 z1 + l(l+1) (y3 z4 - y4 z3) + (y5 z6 - y6 z5) / (4 pi G) ];  static liquid layers: r^2 (y5 z7 - y7 z5) / (4 pi G)."""
+    n = len(names); r = P['r']; lv = P['l'] if l is None else l
+    L = lv * (lv + 1)
+    Om = [[X.ZERO] * n for _ in range(n)]
+
+    def setp(a, b, v):
+        if a in names and b in names:
+            i, j = names.index(a), names.index(b); Om[i][j] = v; Om[j][i] = -v
+    setp('y1', 'y2', r * r); setp('y3', 'y4', r * r * L); setp('y5', 'y6', r * r / P['fpG']); setp('y5', 'y7', r * r / P['fpG'])
+    return Om
+
+
+def symplectic_defect(A, Om, n, d, names):
+    """entries (i, j) of  Omega' + A^T Omega + Omega A  that do not vanish identically"""
+    bad = []
+    for i in range(n):
+        for j in range(n):
+            acc = X.diff(Om[i][j], 'r')
+            for k in range(n):
+                acc = acc + A[k][i] * Om[k][j] + Om[i][k] * A[k][j]
+            if not d.is_zero(acc):
+                bad.append(f'({names[i]},{names[j]})')
+    return bad
